@@ -62,6 +62,16 @@ CHECKS.update({
                      "closed bars are compared with the spec"),
 })
 
+CHECKS["C05"] = dict(
+    technique="TLA+ spec BarLoop.tla (one action per phase of Actuator.run) model-checked by TLC; recorded traces of the real "
+              "Actuator.run (harness-side wrappers) validated event by event by the trace spec Trace_BarLoop; TLC-enumerated scripts "
+              "executed by the real bar loop and compared with the predicted event sequence",
+    design="3/C05",
+    text="TLC enumerates every script within a per-configuration budget (operations per hook, triggers, update-emitted records) over "
+         "1/5/60-minute grids and minutely+hourly market mixes and checks BarsInOrder, PhaseOrder, Stamp, NotifyOnce, RowPerBar; every "
+         "exported script plus seeded random scripts and a real UniLpMarket mix is run by the real Actuator and its trace must be "
+         "accepted by Trace_BarLoop (each event takeable as the next spec action); corrupted traces must be rejected")
+
 NOT_YET = "check not built yet in this round (see DESIGN.md section 3 for the planned spec clauses)"
 
 
